@@ -86,7 +86,13 @@ class Fields:
         so = [f for f in ro['fields'] if base_type(f['ct']) == TS]
         sn = [f for f in rv['fields'] if base_type(f['ct']) == TS]
         lst = [f for f in rv['fields'] if re.match(r'std::(vector|list|deque)<rkcommon::utility::Observer \*', f['ct'])]
-        if len(pe) != 1 or len(so) != 1 or len(sn) != 1 or len(lst) != 1 or len(ro['fields']) != 2 or len(rv['fields']) != 2:
+        anchored = {f['id'] for f in pe + so + sn + lst}
+        SCALAR = re.compile(r'^(const )?(bool|char|short|int|long|unsigned( (char|short|int|long))?|size_t|float|double|std::atomic<[\w ]+>)$')
+        self.extra = [f for f in ro['fields'] + rv['fields'] if f['id'] not in anchored]
+        # additional plain scalar members are tolerated: if they gate an anchored operation they show up as path
+        # conditions in the rules below; additional pointers / containers / stamps change the model => undecided
+        extra_ok = all(SCALAR.match(base_type(f['ct'])) for f in self.extra)
+        if len(pe) != 1 or len(so) != 1 or len(sn) != 1 or len(lst) != 1 or not extra_ok:
             self.why = ('unexpected data members: Observer %s, Observable %s' %
                         ([(f['name'], f['ct']) for f in ro['fields']], [(f['name'], f['ct']) for f in rv['fields']]))
             return
@@ -789,8 +795,40 @@ def check_observable(ctx, tu, F, analysed):
                       key='%s|%s|%s|no-renew' % (R1, file, inst))
     elif all(on_every_path(g, r['id']) for r in renews) and not g.back_edges():
         ctx.ok(R1, inst, 'renews lastNotified on every path', tu.fn_loc(f))
+    elif g.back_edges():
+        ctx.undecided(R1, inst, 'loop in notifyObservers', tu.fn_loc(f))
     else:
-        ctx.undecided(R1, inst, 'lastNotified is not renewed on every path', tu.fn_loc(f))
+        # paths that skip the renew: acceptable only when there is provably nobody to notify (observer list empty)
+        rids = {r['id'] for r in renews}
+        skipping = []
+        for path in cfg_paths(g):
+            if any(e[0] == 'S' and e[1] in rids for blk, taken in path for e in blk.el):
+                continue
+            conds = []
+            for blk, taken in path:
+                if taken is not None and blk.cond is not None and len(blk.succ) == 2:
+                    conds.append((tu.node(blk.cond), taken == 0))
+            justified = False
+            for c, truth in conds:
+                c0 = tu.strip(c, casts=True)
+                neg = False
+                while c0 is not None and c0.get('kind') == 'UnaryOperator' and c0.get('opcode') == '!':
+                    neg = not neg
+                    c0 = tu.strip(tu.kids(c0)[0], casts=True)
+                if c0 is not None and c0.get('kind') == 'CXXMemberCallExpr' and tu.sd(c0).get('q', '').split('::')[-1] == 'empty':
+                    s_, obj, a_ = tu.call_parts(c0)
+                    o = tu.strip(obj, casts=True) if obj is not None else None
+                    if o is not None and tu.sd(o).get('d') == F.observers['id'] and (truth != neg):
+                        justified = True
+            if not justified:
+                skipping.append(' && '.join(('' if t else '!') + '(' + tu.show(c) + ')' for c, t in conds) or 'unconditionally')
+        if skipping:
+            ctx.violation(R1, inst, 'notifyObservers can return without renewing lastNotified (when %s): an observer whose last poll or '
+                          'creation is newer than the previous notification does not see this one' % skipping[0], tu.fn_loc(f),
+                          key='%s|%s|%s|renew-skipped' % (R1, file, inst),
+                          path=['%s: path condition %s reaches the exit without %s.renew()' % (inst, sk, F.last_notified['name']) for sk in skipping[:4]])
+        else:
+            ctx.ok(R1, inst, 'renews lastNotified on every path except when the observer list is empty', tu.fn_loc(f))
     return n
 
 
@@ -959,6 +997,108 @@ def observable_copy_ok(tu, f, F, kind):
 # ============================================================================================
 #  R-C19-3 TimeStamp
 # ============================================================================================
+def check_cas_loop(ctx, tu, f, g, R3, inst, kbase):
+    """nextValue written as a compare-exchange loop.  Accepted shape: one compare_exchange_{weak,strong}(E, D) on global whose
+    failure edge is the loop's back edge, where the desired value D is re-derived from the *current* expected value E on
+    every iteration (D mentions E, or D is a variable assigned inside the loop from an expression over E) and D == E + 1;
+    the function returns E (the value it claimed) or D.  A desired value computed once before the loop is stale after the
+    first failed exchange (the exchange reloads E only): the retry then stores an old value and hands out a stamp that
+    another thread already holds."""
+    cas = []
+    for b, i, n in g.stmts():
+        a = atomic_call(tu, n, is_global)
+        if a and a[0] == 'write' and a[1].startswith('compare_exchange'):
+            cas.append((b, i, n))
+        elif a and a[0] in ('write', 'rmw', 'other'):
+            ctx.undecided(R3, inst, 'loop in nextValue with an additional %s on global' % (a[1] if len(a) > 1 else a[0]), tu.fn_loc(f))
+            return
+    if len(cas) != 1:
+        ctx.undecided(R3, inst, 'loop in nextValue that is not a single compare-exchange loop', tu.fn_loc(f))
+        return
+    cb, ci, cn = cas[0]
+    sd, obj, args = tu.call_parts(cn)
+    if len(args) < 2:
+        ctx.undecided(R3, inst, 'compare_exchange with unexpected arguments', tu.loc(cn))
+        return
+    E = tu.strip(args[0], casts=True)
+    D = tu.strip(args[1], casts=True)
+    if E is None or E.get('kind') != 'DeclRefExpr':
+        ctx.undecided(R3, inst, 'expected value of the compare_exchange is not a local variable', tu.loc(cn))
+        return
+    eid = E['referencedDecl']['id']
+    # natural loop of the back edge(s)
+    preds = g.preds()
+    loop = set()
+    for (t, h) in g.back_edges():
+        loop.add(h)
+        work = [t]
+        while work:
+            x = work.pop()
+            if x in loop:
+                continue
+            loop.add(x)
+            work.extend(preds[x])
+    if cb.id not in loop:
+        ctx.undecided(R3, inst, 'the compare_exchange is not inside the loop', tu.loc(cn))
+        return
+
+    def mentions(e, decl):
+        return any(x.get('kind') == 'DeclRefExpr' and x.get('referencedDecl', {}).get('id') == decl for x in tu.walk(e))
+
+    def is_e_plus_one(e):
+        e = tu.strip(e, casts=True)
+        if e is not None and e.get('kind') == 'BinaryOperator' and e.get('opcode') == '+':
+            a, b = tu.kids(e)
+            for x, y in ((a, b), (b, a)):
+                if mentions(x, eid) and tu.strip(x, casts=True).get('kind') == 'DeclRefExpr' and (tu.sd(tu.strip(y, casts=True)).get('cv') == '1'):
+                    return True
+        return False
+
+    fresh = None
+    if mentions(D, eid):
+        fresh = is_e_plus_one(D)
+        where = 'argument'
+    elif D.get('kind') == 'DeclRefExpr':
+        did = D['referencedDecl']['id']
+        defs_in, defs_out = [], []
+        for b, i, n in g.stmts():
+            rhs = None
+            if n.get('kind') == 'BinaryOperator' and n.get('opcode') == '=':
+                l = tu.strip(tu.kids(n)[0], casts=True)
+                if l is not None and l.get('kind') == 'DeclRefExpr' and l['referencedDecl']['id'] == did:
+                    rhs = tu.kids(n)[1]
+            elif n.get('kind') == 'DeclStmt':
+                for v in tu.kids(n):
+                    if v.get('id') == did and tu.kids(v):
+                        rhs = tu.kids(v)[-1]
+            elif n.get('kind') in ('UnaryOperator', 'CompoundAssignOperator'):
+                l = tu.strip(tu.kids(n)[0], casts=True)
+                if l is not None and l.get('kind') == 'DeclRefExpr' and l['referencedDecl']['id'] == did and n.get('opcode') in ('++', '--', '+=', '-='):
+                    rhs = n
+            if rhs is not None:
+                (defs_in if b.id in loop else defs_out).append(rhs)
+        if not defs_in:
+            ctx.violation(R3, inst, 'the desired value `%s` of the compare-exchange loop is computed before the loop and never recomputed: '
+                          'after a failed exchange `%s` holds the new counter value but `%s` is stale, so the retry stores an old value and '
+                          'two threads obtain the same stamp' % (tu.show(D), tu.show(E), tu.show(D)), tu.loc(cn), key=kbase + 'cas-stale-desired',
+                          path=['%s: desired value defined at %s' % (inst, ', '.join(tu.loc(x) for x in defs_out) or '?'),
+                                'loop blocks %s contain no assignment to it' % sorted(loop), 'compare_exchange at %s' % tu.loc(cn)])
+            return
+        fresh = all(is_e_plus_one(x) for x in defs_in) and all(mentions(x, eid) for x in defs_in)
+        where = 'assignment in the loop'
+    if not fresh:
+        ctx.undecided(R3, inst, 'compare-exchange loop whose desired value is not recognisably `expected + 1`', tu.loc(cn))
+        return
+    rets = [n for b, i, n in g.stmts() if n.get('kind') == 'ReturnStmt']
+    for r in rets:
+        rv = tu.strip(tu.kids(r)[0], casts=True) if tu.kids(r) else None
+        if rv is None or rv.get('kind') != 'DeclRefExpr' or rv['referencedDecl']['id'] not in (eid, D.get('referencedDecl', {}).get('id')):
+            ctx.undecided(R3, inst, 'compare-exchange loop returning `%s`, neither the claimed nor the stored value' % tu.show(rv), tu.loc(r))
+            return
+    ctx.ok(R3, inst, 'compare-exchange loop: desired value re-derived from the current expected value (%s) as expected+1; returns the claimed value' % where,
+           tu.fn_loc(f))
+
+
 def is_global(sd):
     return sd.get('q') == GLOBAL
 
@@ -1018,7 +1158,7 @@ def check_timestamp(ctx, tu_src, tu_drv, lib_tus, analysed_names):
     inst = 'TimeStamp::nextValue'
     kbase = '%s|%s|TimeStamp::nextValue|' % (R3, tu_src.fn_file(fnext))
     if g.back_edges():
-        ctx.undecided(R3, inst, 'loop in nextValue', tu_src.fn_loc(fnext))
+        check_cas_loop(ctx, tu_src, fnext, g, R3, inst, kbase)
     else:
         problems, undec = [], []
         for path in cfg_paths(g):
